@@ -392,8 +392,12 @@ func sampleFrom(j *job, s *search) {
 		nd := &s.nodes[i]
 		if nd.ob.ok && nd.depth >= int16(j.n) && nd.or.offered&(nd.or.offered-1) != 0 {
 			ops := s.path(int32(i))
-			kinds := kindSet(ops)
-			if !strings.Contains(kinds, "claim") || !strings.Contains(kinds, "B") {
+			hasClaim, hasB := false, false
+			for _, t := range ops {
+				hasClaim = hasClaim || t.vote == nil
+				hasB = hasB || t.kind == "B"
+			}
+			if !hasClaim || !hasB {
 				continue
 			}
 			r.Sample(map[string]interface{}{"kind": "voteset-state", "vector": j.pw, "type": typeNames[j.typ], "profile": j.profile, "history": opNames(ops),
